@@ -131,7 +131,8 @@ def reader_jobs(rng, sc, tier, ev, drv):
                     ops.append("N")
                     q = rng.random()
                     if q < 0.35:
-                        ops.append("A%d" % rng.choice([1, 64, 4096]) if len(truths[a]) < 4 else "A4096")
+                        small = len(truths[a]) < 4 and sum(len(m.get("data", [])) for m in truths[a]) < 3000
+                        ops.append("A%d" % rng.choice([1, 64, 4096]) if small else "A4096")
                     elif q < 0.6:
                         ops.append("C")
                     elif q < 0.7:
@@ -161,9 +162,9 @@ def run(tier, seed, ev):
         t2 = time.time()
         rj, bad = reader_jobs(rng, sc, tier, ev, rdrv)
         t3 = time.time()
-        res2 = TR.run_sharded(rdrv, rj, sc, "rd")
+        res2 = TR.run_sharded(rdrv, rj, sc, "rd", nshards=V.NCPU if tier == "quick" else 4 * V.NCPU)
         t4 = time.time()
-        v2, g2 = TR.validate_all("Trace_Reader", "Trace_Reader", res2, ev, "C16", xmx="6g")
+        v2, g2 = TR.validate_all("Trace_Reader", "Trace_Reader", res2, ev, "C16", xmx="6g", timeout=1500 if tier == "quick" else 6000)
         t5 = time.time()
         ev.set("phase_seconds", {"stream_run": round(t1 - t0, 1), "stream_validate": round(t2 - t1, 1), "reference_runs": round(t3 - t2, 1),
                                  "reader_run": round(t4 - t3, 1), "reader_validate": round(t5 - t4, 1)})
